@@ -8,6 +8,29 @@ HERE = os.path.dirname(os.path.dirname(os.path.abspath(__file__)))
 
 # id -> (technique, level text, level note, design ref)
 CHECKS = {
+    "C10": (
+        "exhaustive option-product enumeration on real crowsetta objects: import lattice (times/sample indices x samplerate x expansion x flag), full label-cascade option product (10 368 cells x entry points), export kinds x switches, round trip; against a cascade transcribed from the docstrings and Fraction arithmetic",
+        "279 717 (quick) / 3 835 546 (thorough) cases: every onset/offset/frequency lattice point x unit x samplerate x time expansion x adjust flag through all five import entry points; the full product of label options "
+        "(empty_labels, tag_fn, term/tag/key mappings hit/miss, key, term, fallback) x 3 labels; export label options (seq_label_fn, select_by_key, index incl. wrap, separators, label_fn, label_mapping, value_only); "
+        "export of all 9 geometry kinds + none x cast x raise_on_time_geometries x ignore_errors x samplerate (floor sample index, Nyquist cap, order, error policy); export after import reproduces everything for expansion 1 / value-only labels.",
+        "One cell of the cascade (term_mapping hit and tag_mapping hit) is not judged: docstring order and the property's summary disagree. select_by_key hit may return the value-only or the kwargs-governed label. crowsetta's own validators define 'unconvertible'.",
+        "DESIGN.md 4/C10",
+    ),
+    "C19": (
+        "exhaustive enumeration of every vocabulary (ordered selection) from a colliding 5/6-tag universe x every tag list / predicted-tag list up to length 3/4 on the real encoder functions; all ordered pairs of a reflective object pool for the hash/equality contract",
+        "326 (quick) / 1 957 (thorough) vocabularies x all tag lists with repeats x all predicted lists over the score alphabet: encode iff equal, decode-encode identity, first hit, indicator vector, float32 score vector, out-of-vocabulary members without influence. "
+        "Hash contract: per hashable class a base object, one variant per declared field (reflection reports uncovered fields: none) and four equal-but-distinct realisations; all 126 025 (quick) / 2.94 M (thorough) ordered pairs incl. cross-class: equal implies equal hash, set/dict usable, equality symmetric.",
+        "Tag equality is taken from the real == (recorded as a matrix in the evidence). Vocabularies with two equal tags are outside the precondition (executed, not judged).",
+        "DESIGN.md 4/C19",
+    ),
+    "C20": (
+        "exhaustive enumeration of templates (sizes 1..4 squared, both dimension orders, 4 axis configurations) x geometry lists (boxes on every half-bin edge position, lattice triangles/rectangles, intervals, stamps, points, lines; lists up to length 2 in both orders) x options on the real rasterize against a rasterio-independent point-in-shape model on bin centres",
+        "86 684 (quick) / 1 580 044 (thorough) cases, each with all_touched False and True: result indexed by the template's time/frequency coordinates for either dimension order, cells == model (cell centre inside the mapped shape; exact closed form for boxes), "
+        "later geometries overwrite earlier ones, fill elsewhere, all_touched only adds cells, wrong-length value lists rejected, template untouched, dtype as requested. "
+        "One open known finding: for LineStrings all_touched=True can unmark cells (GDAL line burning).",
+        "Cells whose centre lies within 1e-9 of the mapped boundary, and the cells touched by shapes without interior (stamps, points, lines), are not judged by the centre rule. Multi-geometries and polygons with holes are not enumerated.",
+        "DESIGN.md 4/C20",
+    ),
     "C05": (
         "exhaustive enumeration of all geometries of all 9 types over a small time x frequency lattice x all position names on the real bounds/conversion/features/anchor functions against a min/max walk over raw coordinates",
         "63 134 (quick) / 1 418 725 (thorough) lattice geometries incl. unsorted and zero-extent boxes, all 3-point rings, rectangles/L-shapes in every vertex order, holes, 1-3 member multi-geometries; per geometry 25 calls: "
